@@ -31,7 +31,8 @@ RULE = ("random plate sets: 1-12 plates of unequal sizes 1..40 (single plate, si
         "non-negative distance matrices with no / some / most / all-but-one-pair / all entries zero, distance_factor "
         "1 (mostly), 0.5, 2, 3; every max_chunk in {1,2,3,P-1,P,P+1,50}; scorer objects are REUSED: each is first run on a decoy "
         "plate set of the same dense shape but other raggedness/values/distances (exposes buffers, masks or matrices kept across "
-        "chunks or calls); a third of the cases passes read-only, non-contiguous input arrays; every input is compared with a pristine copy "
+        "chunks or calls), and in EVERY case two further scorer objects are first used with MORE resp. FEWER posterior samples and another "
+        "distance matrix (budget covering both C(n,3) or only the smaller), then must reproduce the direct estimator and a fresh scorer's result; a third of the cases passes read-only, non-contiguous input arrays; every input is compared with a pristine copy "
         "afterwards and the kernel is called twice on the same dense arrays; plus the scorer driven through real "
         "Screen/Plate/ThetaHolder/ChunkedDistanceMatrix objects. Non-trivial: >= 2 plates of different sizes and some triple with positive distance.")
 
@@ -441,20 +442,39 @@ def eval_case(case, want_tie=True):
     Udec = np.triu(gdec.uniform(0.1, 5.0, size=(n, n)), 1)
     Ddec = Udec + Udec.T
     for ci, mc in enumerate(chunks):
-        sc = gd.GaussianDBALScorer(max_chunk=mc, max_triples=c["max_combos"])
         reused = ci < 3
+        # ci = 0: decoy with the SAME number of posterior samples (same dense shapes);
+        # ci = 1: the scorer object was used before with MORE posterior samples, ci = 2: with FEWER (in-process
+        #         active-learning rounds: n_thetas changes between score() calls); the decoy has its own distance matrix.
+        n_dec = n
+        if ci == 1:
+            n_dec = n + r.choice([1, 2, 5])
+        elif ci == 2:
+            n_dec = r.randint(3, n - 1) if n > 3 else n + 1
+        budget = c["max_combos"]
+        if n_dec != n and r.random() < 0.5:
+            budget = max(budget, math.comb(n_dec, 3))      # exhaustive regime in BOTH calls (else the larger one sub-samples)
+        sc = gd.GaussianDBALScorer(max_chunk=mc, max_triples=budget)
         if reused:
             # the scorer object has a history: it scored the decoy set before
-            o_dec, _ = call(sc.score, plates=decoy, distance_matrix=StubDM(Ddec), samples=StubThetas(n), progress_bar=False)
+            if n_dec == n:
+                dec, Dd = decoy, Ddec
+            else:
+                dec = {i: StubPlate(gdec.normal(size=(n_dec, L)) * 3.0, 10.0 ** gdec.uniform(-2, 2, size=(n_dec, L))) for i, L in zip(ids, rot)}
+                Ud = np.triu(gdec.uniform(0.1, 5.0, size=(n_dec, n_dec)), 1)
+                Dd = Ud + Ud.T
+            o_dec, _ = call(sc.score, plates=dec, distance_matrix=StubDM(Dd), samples=StubThetas(n_dec), progress_bar=False)
             if isinstance(o_dec, str):
-                bad("scorer raises on valid input", {"max_chunk": mc, "error": o_dec}, "scores", "raises")
+                bad("scorer raises on valid input", {"max_chunk": mc, "error": o_dec, "n_thetas": n_dec}, "scores", "raises")
                 continue
         use = plates
         if ci == 1 and P >= 2:
             use = dict(reversed(list(plates.items())))      # the same dict in the opposite insertion order
         out, tss = call(sc.score, plates=use, distance_matrix=StubDM(D), samples=StubThetas(n), progress_bar=False)
         if isinstance(out, str):
-            bad("scorer raises on valid input", {"max_chunk": mc, "error": out}, "scores", "raises")
+            bad("scorer raises on valid input" + (" (scorer object previously used with %d posterior samples, now %d)" % (n_dec, n) if reused else ""),
+                {"max_chunk": mc, "error": out, "reused_scorer": reused, "previous_n_thetas": n_dec if reused else None}, "scores",
+                "scorer-reuse" if reused and n_dec != n else "raises")
             continue
         if list(out.keys()) != list(use.keys()):
             bad("scorer does not return exactly the given plate ids", {"max_chunk": mc, "keys": [int(k) for k in out.keys()]}, [int(k) for k in use.keys()], "scorer")
@@ -464,8 +484,19 @@ def eval_case(case, want_tie=True):
             bad("scorer result for a plate differs from the direct estimator of that plate"
                 + (" (scorer object previously used on another plate set)" if reused else "")
                 + (" (plates given in the opposite order)" if use is not plates else ""),
-                {"max_chunk": mc, "scores": got, "reused_scorer": reused, "reversed_order": use is not plates}, ref1, "scorer")
-        if want_tie and ci == 0:
+                {"max_chunk": mc, "scores": got, "reused_scorer": reused, "previous_n_thetas": n_dec if reused else None,
+                 "reversed_order": use is not plates}, ref1, "scorer-reuse" if reused and n_dec != n else "scorer")
+        elif reused and n_dec != n:
+            # ... and equals what a FRESH scorer object of the same configuration returns
+            fresh, _ = call(gd.GaussianDBALScorer(max_chunk=mc, max_triples=budget).score, plates=use, distance_matrix=StubDM(D),
+                            samples=StubThetas(n), progress_bar=False)
+            if isinstance(fresh, str) or not all_close([float(fresh[i]) for i in ids], got):
+                bad("a scorer object used before with another number of posterior samples scores differently from a fresh one",
+                    {"max_chunk": mc, "reused": got, "fresh": fresh if isinstance(fresh, str) else [float(fresh[i]) for i in ids],
+                     "previous_n_thetas": n_dec}, "equal", "scorer-reuse")
+        if reused and n_dec != n:
+            info["reuse_other_n"] = info.get("reuse_other_n", 0) + 1
+        if want_tie and ci == 0 and tss:
             line = "dbal.scorer %d %d %s %s %s %s %s" % (n, mc, enc_mat(Dl), "/".join(enc_triples(t) for t in tss),
                                                         ",".join(str(i) for i in ids), enc_3d(means0), enc_3d(variances0))
             tie.append(("scorer", line, got))
@@ -722,6 +753,7 @@ def run(ctx, res):
         if 1 in info["sizes"]:
             res.count("has_size1_plate")
         res.count("mode.%s" % info["mode"])
+        res.count("scorer_reused_after_other_n_thetas", info.get("reuse_other_n", 0))
         if info["views"]:
             res.count("inputs.readonly_noncontiguous")
         if max(info["sizes"]) >= 96:
